@@ -164,7 +164,7 @@ mod verif_kani {
         //  parse(bytes) == rfc5651_decode(bytes) for every byte string)
     }
 
-    // @HARNESS id=C06.lct.push_vs_rfc.cci0 tier=quick kind=K props=C06,C15 bound="CCI == 0 (the only value flute's sender passes); full domain of TSI < 2^48, TOI < 2^112, flags, psi, cp" timeout=1500
+    // @HARNESS id=C06.lct.push_vs_rfc.cci0 tier=quick kind=K props=C06,C15,C01 bound="CCI == 0 (the only value flute's sender passes); full domain of TSI < 2^48, TOI < 2^112, flags, psi, cp" timeout=1500
     #[cfg(kani)]
     #[kani::proof]
     #[kani::unwind(18)]
